@@ -3,8 +3,8 @@ from simcheck import sim_check
 
 
 def run(tier, seed, replay):
-    kws = [dict(), dict(track=True), dict(weights=dict(drop=2.0, deliver=3.0)), dict(nclients=3, max_size=30), dict(rel=True), dict(rel=True, max_size=1, nclients=2)]
-    return sim_check("C11", tier, seed, kws, n_quick=200, n_thorough=5000, oracle_props={"C11", "C01"},
+    kws = [dict(burst=0.1, max_size=1), dict(burst=0.08, max_size=30, nclients=2), dict(track=True), dict(weights=dict(drop=2.0, deliver=3.0)), dict(nclients=3, max_size=30), dict(rel=True), dict(rel=True, max_size=1, nclients=2)]
+    return sim_check("C11", tier, seed, kws, n_quick=200, n_thorough=20000, oracle_props={"C11", "C01"},
                      rule_extra=", acknowledgements delayed or held back, mutate messages dropped; the last settle tick must be silent (exactly one empty message per client with tracking)",
                      extra_assumptions=["acknowledgement timeouts (cleanup_acks) are covered by the theorem C11_late_ack_after_cleanup_is_junk; the wall-clock timer itself is not driven by the scripts",
                                         "relation graphs (sync_related_entities) are part of the pool: an idle server with registered graphs must stay silent (D07 regression)"])
